@@ -147,3 +147,18 @@ def ensure_repo_on_path():
         f"genlm.grammar imported from {f}, expected under {REPO}"
     )
     return g
+
+
+def pretty(obj, depth=3, _ind=0):
+    """JSON text: indented down to `depth`, compact below (readable replay and
+    evidence files without one line per token)."""
+    pad = " " * (_ind + 1)
+    if depth <= 0 or not isinstance(obj, (dict, list)) or not obj:
+        return json.dumps(obj, ensure_ascii=False, default=repr)
+    if isinstance(obj, dict):
+        items = [f"{pad}{json.dumps(str(k), ensure_ascii=False)}: {pretty(v, depth - 1, _ind + 1)}" for k, v in obj.items()]
+        return "{\n" + ",\n".join(items) + "\n" + " " * _ind + "}"
+    if all(not isinstance(v, (dict, list)) for v in obj):
+        return json.dumps(obj, ensure_ascii=False, default=repr)
+    items = [f"{pad}{pretty(v, depth - 1, _ind + 1)}" for v in obj]
+    return "[\n" + ",\n".join(items) + "\n" + " " * _ind + "]"
